@@ -20,11 +20,13 @@ use crate::pop::PKG;
 /// everything the population's views carry except `name` and `attributes`.
 pub const MASK_FIELDS: &[&str] = &[
     "_system", "schema_ref", "governance", "subject", "predicate_ref", "object", "key",
+    "proposition_id", "asserted_by", "stance", "mode", "confidence", "asserted_at", "valid_time", "evidence_refs",
+    "context_refs", "lifecycle",
 ];
 
 #[derive(Clone, Copy, Debug, PartialEq, Eq, PartialOrd, Ord, Hash)]
 pub enum Action {
-    /// bundle, unscoped, delegable -> p1
+    /// bundle + project, unscoped, delegable -> p1
     GAll,
     /// bundle, kinds=[concept], delegable -> p1
     GKind,
@@ -34,7 +36,7 @@ pub enum Action {
     GClass,
     /// bundle, elements=[Ann] -> p1
     GElem,
-    /// bundle, max_classification=internal -> p1
+    /// bundle + project, max_classification=internal -> p1
     GCeil,
     /// bundle, field mask hiding name+attributes, unscoped -> p1
     GMask,
@@ -60,7 +62,7 @@ pub enum Action {
     /// policy v(n+1): allow{everyone, bundle, classifications=[public], min strength strong}
     ///                deny {p1, [read], classifications=[secret]}
     Pol1,
-    /// policy v(n+1): allow{everyone, bundle, unscoped}
+    /// policy v(n+1): allow{everyone, bundle + project, unscoped}
     ///                deny {p2, [export], unscoped}
     Pol2,
     /// revoke the oldest / newest still-active Grant of this configuration
@@ -70,13 +72,20 @@ pub enum Action {
     RevokeDel,
     Suspend1,
     Suspend2,
+    /// Delegation co -> p2 (co is a second owner of the Space): bundle, unscoped, no parent
+    CoDel,
+    /// suspend / revoke the co-owner Principal
+    SuspendCo,
+    RevokeCo,
+    /// remove co from the Space's owners (host API `put_space`)
+    CoUnown,
 }
 
 pub const QUICK_ALPHABET: &[Action] = &[
     Action::GAll, Action::GKind, Action::GType, Action::GClass, Action::GElem, Action::GCeil,
     Action::GMask, Action::GExpired, Action::GWrite, Action::GrpAdd2, Action::GGroup, Action::Del, Action::DelKind,
     Action::DelSys, Action::ReDel, Action::Pol1, Action::Pol2, Action::RevokeOld, Action::RevokeDel,
-    Action::Suspend1,
+    Action::Suspend1, Action::CoDel, Action::SuspendCo, Action::CoUnown,
 ];
 
 pub const FULL_ALPHABET: &[Action] = &[
@@ -84,6 +93,7 @@ pub const FULL_ALPHABET: &[Action] = &[
     Action::GMask, Action::GExpired, Action::GWrite, Action::GAll2, Action::GrpAdd1, Action::GrpAdd2, Action::GGroup,
     Action::Del, Action::DelKind, Action::DelSys, Action::ReDel, Action::Pol1, Action::Pol2,
     Action::RevokeOld, Action::RevokeNew, Action::RevokeDel, Action::Suspend1, Action::Suspend2,
+    Action::CoDel, Action::SuspendCo, Action::RevokeCo, Action::CoUnown,
 ];
 
 impl Action {
@@ -103,7 +113,7 @@ fn strs(v: &[&str]) -> Vec<String> {
 /// policy ids, so that many configurations can share a long-lived Nexus.
 pub struct Cfg {
     pub tag: String,
-    pub principal: [String; 3],
+    pub principal: [String; 4],
     pub group: String,
     pub policy: String,
     pub model: GovModel,
@@ -123,6 +133,7 @@ impl Cfg {
                 SYSTEM_PRINCIPAL.to_string(),
                 format!("kip:principal:p1-{tag}"),
                 format!("kip:principal:p2-{tag}"),
+                format!("kip:principal:co-{tag}"),
             ],
             group: format!("kip:group:g-{tag}"),
             policy: format!("kip:policy:c19-{tag}"),
@@ -132,7 +143,7 @@ impl Cfg {
             policy_bound: false,
             id_of: id_of.clone(),
         };
-        for who in 1..3 {
+        for who in 1..4 {
             nexus
                 .governance()
                 .ensure_principal(PrincipalDraft {
@@ -145,6 +156,10 @@ impl Cfg {
                 .await
                 .expect("machinery: ensure_principal");
         }
+        // co is a second owner of the Space from the start of every configuration
+        let mut space = nexus.store.get_space(DEFAULT_SPACE).await.expect("machinery: get_space");
+        space.owners.push(cfg.principal[3].clone());
+        nexus.store.put_space(&space).await.expect("machinery: put_space");
         cfg
     }
 
@@ -152,7 +167,7 @@ impl Cfg {
     pub fn model_only() -> Cfg {
         Cfg {
             tag: String::new(),
-            principal: [SYSTEM_PRINCIPAL.to_string(), "p1".into(), "p2".into()],
+            principal: [SYSTEM_PRINCIPAL.to_string(), "p1".into(), "p2".into(), "co".into()],
             group: "g".into(),
             policy: "pol".into(),
             model: GovModel::default(),
@@ -166,12 +181,12 @@ impl Cfg {
     /// Unbinds the configuration's policy so the next configuration on the
     /// same Nexus starts from "no policy bound".
     pub async fn close(&mut self, nexus: &CognitiveNexus) {
-        if self.policy_bound {
-            let mut space = nexus.store.get_space(DEFAULT_SPACE).await.expect("machinery: get_space");
-            space.default_policy_id = String::new();
-            nexus.store.put_space(&space).await.expect("machinery: put_space");
-            self.policy_bound = false;
-        }
+        let mut space = nexus.store.get_space(DEFAULT_SPACE).await.expect("machinery: get_space");
+        space.default_policy_id = String::new();
+        let co = self.principal[3].clone();
+        space.owners.retain(|o| *o != co);
+        nexus.store.put_space(&space).await.expect("machinery: put_space");
+        self.policy_bound = false;
     }
 
     fn scope_impl(&self, s: &Scope) -> AuthorityScope {
@@ -325,12 +340,15 @@ impl Cfg {
     /// revoke, already suspended, ...): the configuration then equals its prefix.
     pub async fn apply(&mut self, nexus: Option<&CognitiveNexus>, action: Action) -> bool {
         let bundle = strs(BUNDLE);
+        // the bundle plus `project` (Epistemic Projection)
+        let mut bundle_p = strs(BUNDLE);
+        bundle_p.push("project".into());
         let public = Scope { classes: strs(&["public"]), ..Default::default() };
         let g = |scope: Scope, actions: Vec<String>, cond: Cond, cons: Cons, delegable: bool, grantee: Who, to_group: bool| MGrant {
             to_group, grantee, actions, scope, cond, cons, delegable, active: true,
         };
         match action {
-            Action::GAll => self.grant(nexus, g(Scope::default(), bundle, Cond::default(), Cons::default(), true, 1, false)).await,
+            Action::GAll => self.grant(nexus, g(Scope::default(), bundle_p, Cond::default(), Cons::default(), true, 1, false)).await,
             Action::GKind => {
                 let s = Scope { kinds: strs(&["concept"]), ..Default::default() };
                 self.grant(nexus, g(s, bundle, Cond::default(), Cons::default(), true, 1, false)).await
@@ -346,7 +364,7 @@ impl Cfg {
             }
             Action::GCeil => {
                 let c = Cons { max_class: "internal".into(), ..Default::default() };
-                self.grant(nexus, g(Scope::default(), bundle, Cond::default(), c, false, 1, false)).await
+                self.grant(nexus, g(Scope::default(), bundle_p, Cond::default(), c, false, 1, false)).await
             }
             Action::GMask => {
                 let c = Cons { masked: true, ..Default::default() };
@@ -408,7 +426,7 @@ impl Cfg {
             }
             Action::Pol2 => {
                 self.publish(nexus, vec![
-                    MStmt { deny: false, principals: vec![], actions: bundle, scope: Scope::default(), cond: Cond::default(), cons: Cons::default() },
+                    MStmt { deny: false, principals: vec![], actions: bundle_p, scope: Scope::default(), cond: Cond::default(), cons: Cons::default() },
                     MStmt { deny: true, principals: vec![2], actions: strs(&["export"]), scope: Scope::default(), cond: Cond::default(), cons: Cons::default() },
                 ]).await
             }
@@ -431,8 +449,39 @@ impl Cfg {
                 }
                 self.model.delegs[i].active = false;
             }
-            Action::Suspend1 | Action::Suspend2 => {
-                let who = if action == Action::Suspend1 { 1 } else { 2 };
+            Action::CoDel => {
+                self.delegate(nexus, MDeleg {
+                    from: 3, to: 2, actions: bundle, scope: Scope::default(), cond: Cond::default(),
+                    cons: Cons::default(), parent: Parent::None, may_redelegate: false, active: true,
+                }).await
+            }
+            Action::CoUnown => {
+                if !self.model.owners.remove(&3) {
+                    return false;
+                }
+                self.model.ex_owners.insert(3);
+                if let Some(nexus) = nexus {
+                    let mut space = nexus.store.get_space(DEFAULT_SPACE).await.expect("machinery: get_space");
+                    let co = self.principal[3].clone();
+                    space.owners.retain(|o| *o != co);
+                    nexus.store.put_space(&space).await.expect("machinery: put_space");
+                }
+            }
+            Action::RevokeCo => {
+                if !self.model.active[3] {
+                    return false;
+                }
+                if let Some(nexus) = nexus {
+                    nexus
+                        .governance()
+                        .set_principal_status(&self.principal[3], status::REVOKED, SYSTEM_PRINCIPAL)
+                        .await
+                        .expect("machinery: set_principal_status");
+                }
+                self.model.active[3] = false;
+            }
+            Action::Suspend1 | Action::Suspend2 | Action::SuspendCo => {
+                let who = match action { Action::Suspend1 => 1, Action::Suspend2 => 2, _ => 3 };
                 if !self.model.active[who] {
                     return false;
                 }
